@@ -107,9 +107,7 @@ func (s *Service) ScheduleJob(ctx context.Context,
 		select {
 		case <-ctx.Done():
 			s.log.Trace().Str("job", name).Time("scheduled", runtime).Msg("Parent context done; job not running")
-			s.jobsMutex.Lock()
-			delete(s.jobs, name)
-			s.jobsMutex.Unlock()
+			s.removeJob(name, job)
 			finaliseJob(job)
 			monitorJobCancelled(class)
 		case <-job.cancelCh:
@@ -143,9 +141,7 @@ func (s *Service) ScheduleJob(ctx context.Context,
 				job.active.Store(false)
 				break
 			}
-			s.jobsMutex.Lock()
-			delete(s.jobs, name)
-			s.jobsMutex.Unlock()
+			s.removeJob(name, job)
 			s.log.Trace().Str("job", name).Time("scheduled", runtime).Msg("Timer triggered; job running")
 			job.active.Store(true)
 			monitorJobStartedOnTimer(class)
@@ -200,18 +196,14 @@ func (s *Service) SchedulePeriodicJob(ctx context.Context,
 			runtime, err := runtimeFunc(ctx)
 			if errors.Is(err, scheduler.ErrNoMoreInstances) {
 				s.log.Trace().Str("job", name).Msg("No more instances; period job stopping")
-				s.jobsMutex.Lock()
-				delete(s.jobs, name)
-				s.jobsMutex.Unlock()
+				s.removeJob(name, job)
 				finaliseJob(job)
 				monitorJobCancelled(class)
 				return
 			}
 			if err != nil {
 				s.log.Error().Str("job", name).Err(err).Msg("Failed to obtain runtime; periodic job stopping")
-				s.jobsMutex.Lock()
-				delete(s.jobs, name)
-				s.jobsMutex.Unlock()
+				s.removeJob(name, job)
 				finaliseJob(job)
 				monitorJobCancelled(class)
 				return
@@ -220,9 +212,7 @@ func (s *Service) SchedulePeriodicJob(ctx context.Context,
 			select {
 			case <-ctx.Done():
 				s.log.Trace().Str("job", name).Time("scheduled", runtime).Msg("Parent context done; job not running")
-				s.jobsMutex.Lock()
-				delete(s.jobs, name)
-				s.jobsMutex.Unlock()
+				s.removeJob(name, job)
 				finaliseJob(job)
 				monitorJobCancelled(class)
 				return
@@ -371,6 +361,17 @@ func (s *Service) CancelJobs(ctx context.Context, prefix string) {
 		// It is possible that the job has been removed whist we were iterating, so use the non-erroring version of cancel.
 		s.CancelJobIfExists(ctx, name)
 	}
+}
+
+// removeJob removes the named job from the jobs list, provided that the entry is still that of the given job.
+// By the time a job's goroutine tidies up, the job may already have been removed by CancelJob() or RunJob() and
+// the name scheduled again; the new job's entry must be left alone.
+func (s *Service) removeJob(name string, j *job) {
+	s.jobsMutex.Lock()
+	if current, exists := s.jobs[name]; exists && current == j {
+		delete(s.jobs, name)
+	}
+	s.jobsMutex.Unlock()
 }
 
 // finaliseJob tidies up a job that is no longer in use.
